@@ -406,7 +406,7 @@ MUTANTS.update({
             ampgen2goofit(filename)""")],
     },
     "c19_py_L_off_by_one_for_gspline": {
-        "prop": "C19", "expect": "caught", "opts": {"files": 6},
+        "prop": "C19", "expect": "caught", "opts": {"files": 12},
         "why": "orbital momentum of GSpline lineshapes off by one in the Python output only",
         "edits": [(GOO, """            return f\"\"\"Lineshapes.GSpline("{name}", {par}_M, {par}_W, {L}, {masses}, FF.BL2,""",
                    """            return f\"\"\"Lineshapes.GSpline("{name}", {par}_M, {par}_W, {L + 1}, {masses}, FF.BL2,""")],
